@@ -52,6 +52,11 @@ func init() {
 		}})
 	register(&simk.Prop{ID: "C05", Level: "exploration", Rule: e2Rule + "; focus: every op under every declared permission subset, undeclared keys, size-suffix twins; the complete post-state dump must differ from the parent only on declared keys", Real: e2Real, Stub: e2Stub,
 		Exec: func(r *simk.Run) *simk.Violation {
+			if r.C.Intn(6) == 0 {
+				// the builder half: what a transaction may read and write while a block is being built is what it
+				// may read and write when the block is verified (same verdicts, same post-state)
+				return buildScenario(r, "C05", 0.3)
+			}
 			return runBlock(r, focus{prop: "C05", headerFaults: 0.01, txFaults: 0.01, permFaults: 0.6, failOps: 0.05, tightUnits: 0.01, bigCosts: 0.0, dupTx: 0.0, maxTxs: 5})
 		}})
 	register(&simk.Prop{ID: "C12", Level: "exploration", Rule: e2Rule + "; focus: unit costs incl. overflow-inducing values, per-dimension limits at sum-1/sum/sum+1, duplicate key declarations across actions and sponsor; 1/3 of the runs build a block from a mempool under tight per-dimension limits (skip/stop paths) and re-verify it", Real: e2Real, Stub: e2Stub,
